@@ -39,6 +39,7 @@ type lfFact struct {
 	conc               bool // concurrent phase
 	noloops            bool
 	line               int
+	lines              []int // every source line at which this fact was seen (for the race-report canonicaliser)
 }
 
 type lfImpl struct {
@@ -132,9 +133,21 @@ type lfFrame struct {
 func (w *lfWalker) emit(field string, wr bool, held bool, pos token.Pos) {
 	f := lfFact{impl: w.impl.name, entry: w.entry, field: field, wr: wr, held: held, conc: w.conc, noloops: w.noloops, line: lfFset.Position(pos).Line}
 	k := fmt.Sprintf("%s|%v|%v|%v|%v", field, wr, held, w.conc, w.noloops)
-	if _, ok := w.facts[k]; !ok {
+	if old, ok := w.facts[k]; !ok {
+		f.lines = []int{f.line}
 		w.facts[k] = f
 		w.order = append(w.order, k)
+	} else {
+		seen := false
+		for _, l := range old.lines {
+			if l == f.line {
+				seen = true
+			}
+		}
+		if !seen {
+			old.lines = append(old.lines, f.line)
+			w.facts[k] = old
+		}
 	}
 }
 
@@ -310,8 +323,14 @@ func (w *lfWalker) fieldMethod(fr *lfFrame, f, m string, c *ast.CallExpr) {
 		}
 		return
 	case "wg":
+		// WaitGroup contract: an Add that starts from zero must happen before Wait — the race detector checks it; Add is a
+		// write and Wait a read of the pseudo-field wg.state (Done is pure synchronisation)
+		if m == "Add" {
+			w.emit("wg.state", true, fr.held, c.Pos())
+		}
 		if m == "Wait" {
 			w.noloops = true
+			w.emit("wg.state", false, fr.held, c.Pos())
 		}
 		return
 	}
@@ -752,7 +771,7 @@ func lfParse(repo string) (impls []*lfImpl) {
 	}
 	// pseudo-fields
 	for _, im := range []*lfImpl{ts, ss} {
-		for _, pf := range []string{"tty.out", "encoder.state", "decoder.state"} {
+		for _, pf := range []string{"tty.out", "encoder.state", "decoder.state", "wg.state"} {
 			base := pf[:strings.Index(pf, ".")]
 			if _, ok := im.ftype[base]; ok {
 				im.fields = append(im.fields, pf)
@@ -1099,7 +1118,11 @@ func genLockFacts() {
 		if f.noloops {
 			nl = " noloops"
 		}
-		fmt.Fprintf(&txt, "fact %s %s %s %s %s %s line=%d%s\n", f.impl, f.entry, f.field, rw(f.wr), g, ph, f.line, nl)
+		ls := make([]string, len(f.lines))
+		for i, l := range f.lines {
+			ls[i] = fmt.Sprint(l)
+		}
+		fmt.Fprintf(&txt, "fact %s %s %s %s %s %s lines=%s%s\n", f.impl, f.entry, f.field, rw(f.wr), g, ph, strings.Join(ls, ","), nl)
 		if f.conc && !f.held && classOf(implByName[f.impl], f.field) == 0 {
 			flagged = append(flagged, f)
 		}
